@@ -29,8 +29,8 @@ CFG = {
                   "model's decisions for all arguments (C06_code_*). Trusted: Lean kernel (axioms propext/Classical.choice/"
                   "Quot.sound), the harness and its canonical digest, pion/stun decoding and HMAC modelled as perfect. Not "
                   "modelled: mDNS candidates, active TCP dialling (addRemotePassiveTCPCandidate creates nothing for the interface-less "
-                  "harness agents; TCP candidates of every tcptype ARE modelled, local ones ride on the in-memory hub), automatic "
-                  "renomination, gathering. Candidate identity (Go pointer) is a model-assigned uid. After Close the model and "
+                  "harness agents; TCP candidates of every tcptype ARE modelled, local ones ride on the in-memory hub), "
+                  "gathering. Candidate identity (Go pointer) is a model-assigned uid. After Close the model and "
                   "the code keep the checklist while the candidate lists are emptied: the pair-ends clause is stated for "
                   "agents that are not closed. Not in the property text: the controlling selector's nominatedPair may dangle "
                   "after Failed until Restart (proved never to be read in that situation).",
